@@ -381,18 +381,40 @@ pub fn record(seed: u64, n: usize, mode: &str, out_path: &str) {
                 }
                 tin.push(json!([s.map(|x| frame_cands(x, rate, fp)).unwrap_or_default(), e.map(|x| frame_cands(x, rate, fp)).unwrap_or_default()]));
             }
+            let mut form_lens: Vec<usize> = Vec::new();
             let r = guarded(|| -> Result<(Vec<MeanVari>, usize, Vec<usize>, usize), String> {
                 let l = Labels::load_from_strings(rate, fp, &lines).map_err(|e| format!("load_from_strings: {}", e))?;
                 let m = Models::new(l.labels(), &engine.voices, engine.condition.get_interporation_weight());
                 let p = m.duration();
                 let d = DurationEstimator::new(p.clone(), m.nstate()).create_with_alignment(l.times());
                 let w = engine.synthesize(&lines[..]).map_err(|e| format!("synthesize: {}", e))?;
+                // the other input forms that carry time stamps
+                let mut forms = vec![engine.synthesize(lines.clone()).map_err(|e| format!("synthesize(Vec<String>): {}", e))?.len()];
+                macro_rules! arr {
+                    ($n:literal) => {{
+                        let a: &[String; $n] = lines[..].try_into().unwrap();
+                        engine.synthesize(a).map_err(|e| format!("synthesize(&[String; N]): {}", e))?.len()
+                    }};
+                }
+                match lines.len() {
+                    1 => forms.push(arr!(1)),
+                    2 => forms.push(arr!(2)),
+                    3 => forms.push(arr!(3)),
+                    4 => forms.push(arr!(4)),
+                    5 => forms.push(arr!(5)),
+                    6 => forms.push(arr!(6)),
+                    7 => forms.push(arr!(7)),
+                    _ => {}
+                }
+                let strs: Vec<&str> = lines.iter().map(|s| s.as_str()).collect();
+                forms.push(engine.synthesize(&strs[..]).map_err(|e| format!("synthesize(&[&str]): {}", e))?.len());
+                form_lens = forms;
                 Ok((p, m.nstate(), d, w.len()))
             });
             match r {
                 Ok(Ok((p, nstate, d, len))) => {
                     out.line(&json!({"ev": "pset", "n": p.len(), "mq": mq_of(&p), "source": "bundled-align"}));
-                    out.line(&json!({"ev": "align", "nstate": nstate, "tin": tin, "result": d, "F": len / fp, "rem": len % fp, "rate": rate, "fperiod": fp, "lines": lines}));
+                    out.line(&json!({"ev": "align", "nstate": nstate, "tin": tin, "result": d, "F": len / fp, "rem": len % fp, "rate": rate, "fperiod": fp, "lines": lines, "form_lens": form_lens}));
                 }
                 Ok(Err(e)) => out.line(&json!({"ev": "error", "msg": e, "lines": lines})),
                 Err(m) => out.line(&json!({"ev": "panic", "in": "align", "msg": m, "lines": lines})),
